@@ -1,6 +1,6 @@
 """C03 - results are independent of partitions, batch size, join algorithm and threads."""
 import random, json
-import vlib, rel
+import vlib, rel, scale
 
 
 def lattice(tier, rng):
@@ -63,6 +63,8 @@ def run(tier):
                        "all pairs; thorough: full product for every 10th query); each run is judged against "
                        "Algebra.tla and pairwise against the base run; non-trivial = non-empty result")
     rep.cov["configs"] = cfgs[:80]
+    # configuration independence at scale: the same formula-built queries under 1-16 partitions, batch sizes 100-8192, table / series sources
+    scale.run(rep, tier, ["groupby", "sort2", "joinagg"], "C03")
     rep.cov["exhaustive"] = False
     return rep.finish()
 
